@@ -27,6 +27,8 @@ def check(chk, repo):
     n = check_closed_forms(rep, M)
     chk.floor("metric bodies translated and compared", n, 40)
     nd = check_decorator_domain(rep, M)
+    from ..rules_metrics import check_shift_wrapper
+    check_shift_wrapper(rep, M)
     chk.floor("metrics that need the zero-avoiding shift", nd, 30)
     chk.extra["programs"] = n
     chk.extra["disagreements_checked"] = sum(1 for o in chk.obligations if not o.ok)
